@@ -958,7 +958,7 @@ def do_attributes(part, start, end):
             elif isinstance(o, score.Clef):
                 if not staves_included:
                     staves_e = etree.SubElement(attr_e, "staves")
-                    staves_e.text = "{}".format(len(clefs))
+                    staves_e.text = "{}".format(len(clefs_by_start[t]))
                     staves_included = True
 
                 clef_e = etree.SubElement(attr_e, "clef")
